@@ -964,9 +964,9 @@ class _SubCtx:
     def need(self, cond, construct, reason):
         self.ctx.need(cond, construct, reason)
 
-    def flush(self, note):
+    def flush(self, note, construct='ds9 writer'):
         if not self.nbad:
-            self.ctx.ok('ds9 writer', note)
+            self.ctx.ok(construct, note)
 
 
 VISUAL_PROBES = [
